@@ -1,4 +1,5 @@
 import DeapModel.Core.Heap
+import DeapModel.Core.HeapDerive
 import DeapModel.Core.Init
 import Driver.Proto
 /-!
@@ -36,6 +37,12 @@ Answers
   closure over its own list; a call on an exhausted list answers `fail`); `shape` = `seq` | `set` | `dict` (for `dict` a call returns a
   key and a value: two values of the tape), `hdr` = `-` or the value that opens the items of an ndarray.  Answer: graph dump of the
   created objects, then ` calls=<number of calls per function> left=<unused values per function>`.
+
+* `derive <ct> <kind> <dt> <events> <items>`: a history over a chain of creator classes DERIVED FROM creator classes (model
+  `Core/HeapDerive.lean`).  `<ct>` = the classes of the per-instance attributes; `<kind>` = kind of the built-in root base; `<dt>` =
+  `;`-separated classes `parent/inst` (`parent` = `-` for the root, else the index of the created parent; `inst` = the class's OWN
+  `name=cls,…` or `-`); `<events>` = comma list of `c` (the next class of `<dt>` is created) and `i<d>` (class `d` is instantiated with
+  `<items>`; it must exist by then).  Answer: graph dump of the created instances in creation order.
 
 Operations: `clone <ct> <heap> <root> <k>`, `pickle <ct> <heap> <root> same|empty`,
 `create <ct> <cls> <items> <count>`, `createclone <ct> <cls> <items>` (one instance created in the
@@ -353,7 +360,38 @@ def initMany (ct : ClassTable) (c : ClsId) (shape : Init.Shape) (hdr : List Val)
     | none => none
     | some (t1, st1, x) => initMany ct c shape hdr mode n nf k t1 st1 (roots ++ [Val.ref x])
 
+/-- `derive`: parse one class of the hierarchy. -/
+def parseDClass (k : Kind) (s : String) : Option DClass :=
+  match s.splitOn "/" with
+  | [par, inst] => do
+      let p ← (if par = "-" then some none else par.toNat?.map some)
+      let inst ← parseList (parsePair parseNat) inst
+      pure { parent := p, kind := k, dictInst := inst, dictCls := [] }
+  | _ => none
+
+def parseDEvent (items : List Val) (s : String) : Option DEvent :=
+  if s = "c" then some .create
+  else if s.startsWith "i" then (s.drop 1).toString.toNat?.map (fun d => DEvent.inst d items)
+  else none
+
+def handleDerive : List String → String
+  | [cts, ks, dts, evs, items] =>
+    match (do let ct ← parseCt cts; let k ← parseKind ks
+              let dt ← (dts.splitOn ";").mapM (parseDClass k)
+              let it ← parseList parseVal items
+              let ev ← parseList (parseDEvent it) evs
+              -- a class is created after its parent
+              if (dt.zipIdx.all (fun (p : DClass × Nat) => match p.1.parent with | none => true | some q => decide (q < p.2)))
+              then pure (ct, dt, ev) else none) with
+    | some (ct, dt, ev) =>
+      match runEvents ct dt ev 0 { objs := fun _ => none, next := 0, memo := [] } [] with
+      | some (st, roots) => graphDump st.objs 0 (st.next + 2) roots
+      | none => "fail"
+    | none => "bad-op"
+  | _ => "bad-op"
+
 def handle : List String → String
+  | "derive" :: rest => handleDerive rest
   | ["init", cts, cs, shapes, hdrs, mode, ns, tapes, counts] =>
     match (do let ct ← parseCt cts; let c ← cs.toNat?; let sh ← parseShape shapes
               let hdr ← (if hdrs = "-" then some [] else (parseVal hdrs).map (fun v => [v]))
